@@ -29,7 +29,7 @@ ASSUMPTIONS = ['receptive-field / dilation masks stay open (they do not change f
 
 def bounds(tier):
     return {'quick': {'G_depth': 2, 'complete_lattice_cap': 128, 'deviation_bound_beyond': 2},
-            'thorough': {'G_depth': 3, 'complete_lattice_cap': 2048, 'deviation_bound_beyond': 2}}[tier]
+            'thorough': {'G_depth': 3, 'complete_lattice_cap': 256, 'deviation_bound_beyond': 2}}[tier]
 
 
 MEMBERS = ['conv', 'conv2', 'id', 'xconv', 'dwconv']
@@ -237,6 +237,9 @@ def run_case(case, seed):
         d24 = 'cat+conv(cat)' in flags and any(k == 'sum-sides-differ' for _, k, _, _ in issues)
 
         same2 = 'cat-same-tensor-twice' in flags
+        # D4 also when the depthwise layer does get a masker from a LATER defining layer of its component (cat -> dw -> + conv): that
+        # masker is unrelated to the concatenated producers, so the depthwise mask differs from the alive channels reaching it
+        d4 = 'cat->dwconv' in flags and bool(issues)
 
         def sig_for(kind, layer=None):
             # a violation is attributed to a listed finding only when the structural predicate of the program AND the
@@ -247,6 +250,8 @@ def run_case(case, seed):
                 return 'excluded-layer-output-tied-to-pruned-layer'
             if d24:
                 return 'cat+conv(cat)-masks-not-tied'
+            if d4:
+                return 'cat->dwconv'
             if same2:
                 return 'same-tensor-concatenated-twice'
             return f'{kind}/{ssig}'
